@@ -85,6 +85,37 @@ def typed (c : PCase) : TCase :=
 
 /-! printing -/
 
+/-- the record printed for one case step (what all timers showed, merged) -/
+structure Rec where
+  res : Res := .unit
+  effects : List Eff := []
+  events : List (Nat × Ev) := []
+  done : Option Bool := none
+
+def effId : Eff → Nat
+  | .notify _ id => id
+  | .clear id => id
+
+/-- merge what the timers showed in one step the way the harness sees it: result class of the addressed action,
+    all effects, all events (tagged with the timer they came from), `is_done()` of the addressed command after a poll -/
+def mergeRec (host : Host) (c : CAct) (i : Nat) (outs : List Out) : Rec :=
+  { res := match outs[i]? with | some o => o.res | none => .unit
+    effects := outs.flatMap (·.effects)
+    events := (outs.mapIdx fun j o => o.events.map fun e => (j, e)).flatten
+    done := match host, c, outs[i]? with
+      | .cmd, .poll, some o => if o.res == .unit then some o.done else none
+      | _, _, _ => none }
+
+/-- the inverse: attribute a record to the timers by id (effects) and tag (events); `none` if something is nobody's -/
+def splitRec (ids : List Nat) (i : Nat) (r : Rec) : Option (List Out) :=
+  let outs := ids.mapIdx fun j id =>
+    ({ res := if j == i then r.res else .unit
+       effects := r.effects.filter (effId · == id)
+       events := r.events.filterMap fun te => if te.1 == j then some te.2 else none
+       done := if j == i then r.done.getD false else false } : Out)
+  if (outs.map (·.effects.length)).sum == r.effects.length && (outs.map (·.events.length)).sum == r.events.length
+  then some outs else none
+
 def showIdx (ids : List (Option Nat)) (id : Nat) : String :=
   let i := ids.idxOf (some id)
   if i < ids.length then toString i else "?"
@@ -109,10 +140,13 @@ def showRec (ids : List (Option Nat)) (r : Rec) : String :=
     (match r.done with | some true => ["done"] | some false => ["live"] | none => []))
 
 def runTyped : TCase → List (Option Nat) × List Rec
-  | .command host ts steps => (ts.map (some ·.id), wrun host ts steps)
+  | .command host ts steps =>
+    (ts.map (some ·.id), (steps.zip (wrun host ts steps)).map fun s => mergeRec host s.1.1 s.1.2 s.2)
   | .legacy kinds steps =>
     let w := mkLWorld baseCounter kinds
-    ((lfinal w steps).timers.map (·.id), lrun w steps)
+    ((lfinal w steps).timers.map (·.id),
+     (steps.zip (lrun w steps)).map fun s =>
+       { res := s.2.res, effects := s.2.effects, events := s.2.events.map fun e => (s.1.2, e) })
 
 /-- the ids of the case's timers in creation order -/
 def createdIds (ids : List (Option Nat)) : List Nat :=
@@ -175,21 +209,31 @@ def oracle (line : String) : String :=
     match parseCase c with
     | none => "bad-case"
     | some pc =>
-      let tc := typed pc
-      -- the ids the observation's timer indices stand for: the model's (index j ↦ j-th timer's id)
-      let ids := (runTyped tc).1
-      let ids := match tc with
-        | .command .. => ids
-        | .legacy kinds _ => (List.range kinds.length).map fun j => some (baseCounter + j)  -- any injective naming
-      match parseObs ids o with
-      | none => "reject unparseable-observation"
-      | some (idsOk, recs) =>
-        let v := match tc with
-          | .command host ts steps => S.Timer.verdict host (ts.map fun t => (t.kind, t.id)) steps idsOk recs
-          | .legacy kinds steps => S.Timer.lverdict kinds ids steps idsOk recs
-        match v with
-        | none => "ok"
-        | some key => "reject " ++ key
+      match typed pc with
+      | .command host ts steps =>
+        let ids := ts.map (·.id)
+        match parseObs (ids.map some) o with
+        | none => "reject unparseable-observation"
+        | some (idsOk, recs) =>
+          if recs.length != steps.length then "reject malformed-observation" else
+          match (steps.zip recs).mapM fun s => splitRec ids s.1.2 s.2 with
+          | none => "reject foreign-id"
+          | some outs =>
+            match S.Timer.verdict host (ts.map fun t => (t.kind, t.id)) steps idsOk outs with
+            | none => "ok"
+            | some key => "reject " ++ key
+      | .legacy kinds steps =>
+        -- the ids the observation's timer indices stand for: any injective naming
+        let ids := (List.range kinds.length).map fun j => some (baseCounter + j)
+        match parseObs ids o with
+        | none => "reject unparseable-observation"
+        | some (idsOk, recs) =>
+          if recs.length != steps.length then "reject malformed-observation"
+          else if !((steps.zip recs).all fun s => s.2.events.all (·.1 == s.1.2)) then "reject foreign-id" else
+          let outs := recs.map fun r => ({ res := r.res, effects := r.effects, events := r.events.map (·.2) } : Out)
+          match S.Timer.lverdict kinds ids steps idsOk outs with
+          | none => "ok"
+          | some key => "reject " ++ key
   | _ => "bad-case"
 
 end Driver.Timer
